@@ -38,6 +38,24 @@ BUILT = {
           "Exhaustive small universe (thorough) / stratified subsample (quick) plus random large configurations and all generator calls: HeContext::new never panics, accepted => every level satisfies the preconditions, rejected => specific and true error, chain well-formed, constants equal their definitions, ids equal the reference hash, independent builds agree, no id collisions, generated moduli are distinct primes of the requested size = 1 mod 2N.",
           "Security table transcribed independently; reference SHA-256 stands in for an independent party.", "DESIGN.md §3 C13"),
 }
+
+BUILT.update({
+ "C04": e("runtime monitor: every odd Galois element and every rotation step executed through the real evaluator with exact-step keys and with NAF-composed default keys; reference automorphism / documented slot permutation as oracle (oracle decryptor + C11-checked decoder)",
+          "For N=4..32 all odd g<2N and all steps -(N/2-1)..N/2-1, at every level, three schemes, both key sets, seeded and unseeded keys, random API form: decrypted polynomial == plaintext with X->X^g, decoded slots == documented rotation / swap / conjugation; key switching s'->s preserves the plaintext. N up to 4096 sampled.",
+          "Key-switch noise precondition checked per level; CKKS within a worst-case tolerance.", "DESIGN.md §3 C04"),
+ "C09": e("reference-model monitor: the library's NTT entry points vs the O(N^2) definition of the transform; exhaustive over unit vectors; tables rebuilt in a second thread and a second process",
+          "For degrees 2..2048 (thorough 8192) and NTT-friendly moduli of every bit size: forward == evaluations at psi^(2 bitrev(i)+1), psi minimal primitive root and identical across independent constructions, inverse round trips, lazy ranges and congruence, dyadic products == negacyclic convolution, negacyclic_shift for every shift.",
+          "Inverse-lazy input range [0,2q) is inferred from the code (undocumented).", "DESIGN.md §3 C09"),
+ "C16": e("runtime monitor: sequential byte-stream model of the seeded generator (BLAKE3 blocks) checked online over random read sequences; uniqueness monitor over histories of encryptions/key generations; exact-law tests of the samplers on deterministic seeds",
+          "Generator reads (bytes exact, words position-consistent) under random chunkings straddling refills, no block/window repeats up to 8 MiB (256 MiB thorough), freshness of masks/seeds over histories of 10^3..10^5 operations with and without the entropy hook, identical masks for identical explicit generator states, well-formed samples and goodness of fit at p<1e-12.",
+          "BLAKE3 itself is trusted; little-endian host.", "DESIGN.md §3 C16"),
+ "C17": e("schedule exploration on feature-guarded yield points (all 2-thread interleavings; bounded DFS + random for 3-4 threads) + real-parallel stress with injected delays + ThreadSanitizer build of the stress workload (+ Miri scenario in thorough); sequential-result equality, cache monotonicity, deadlock watchdog",
+          "Shared Decryptor / KeyGenerator / evaluator scenarios: every concurrent result equals the sequential bytes, caches only grow and end at the maximum requested, no panic, no deadlock (bounded progress), zero ThreadSanitizer reports. Held on the schedules and runs observed.",
+          "Yield points only where no lock is held; interleavings inside lock phases are covered by the race detectors, not enumerated.", "DESIGN.md §3 C17"),
+ "C18": e("history exploration: the harness is the network and enumerates every delivery order per receiver (n<=4), re-running the protocols with identical seeds; byte-equality across parties and histories, key relations against the parties' actual secrets, refusal on missing messages",
+          "All multiparty protocols for 2..4 (thorough 6) parties, BFV/BGV/CKKS where accepted: outputs identical across parties and delivery orders, collective keys correspond to the summed secret within the noise bound, decryption / key switching / public-key switching preserve the plaintext, shares sum to the plaintext and convert back, missing messages make finish panic.",
+          "shares_to_cipher: correctness is demanded of the designated aggregator (party 0), as in the library's own usage.", "DESIGN.md §3 C18"),
+})
 hook_commits = subprocess.check_output(["git", "-C", "/repo", "log", "--format=%H %s"]).decode().splitlines()
 hooks = [l.split()[0] for l in hook_commits if l.split(" ", 1)[1].startswith("verif hooks")]
 checks, na = [], []
